@@ -9,6 +9,7 @@ from fdlstatic import idmemo
 from fdlstatic.ctx import Ctx, kwarg
 from fdlstatic.model import (AnalysisError, FuncInfo, Module, unparse,
                              walk_function, walk_stmts)
+from fdlstatic import roles
 from fdlstatic.report import RuleSet
 
 REG = 'fiddle._src.daglish.NodeTraverserRegistry.register_node_traverser'
@@ -607,14 +608,22 @@ def _shape_rules(ctx: Ctx, rs: RuleSet):
   # memoized flag picks the traversal class
   g = ctx.cfg(it)
   ok = False
+  flag = 'memoized'
   for n in g.nodes():
-    if g.kind[n] == 'if' and unparse(g.stmt[n].test) == 'memoized':
-      t_calls = [unparse(c.func) for s in g.stmt[n].body for c in ast.walk(s)
-                 if isinstance(c, ast.Call)]
-      f_calls = [unparse(c.func) for s in g.stmt[n].orelse for c in ast.walk(s)
-                 if isinstance(c, ast.Call)]
-      ok = ('MemoizedTraversal' in t_calls and 'BasicTraversal' in f_calls and
-            'MemoizedTraversal' not in f_calls)
+    if g.kind[n] != 'if':
+      continue
+    lab_m = roles.branch_when(g.stmt[n].test, lambda t: isinstance(
+        t, ast.Name) and t.id == flag)
+    if lab_m is None:
+      continue
+    st = g.stmt[n]
+    on, off = (st.body, st.orelse) if lab_m == 'true' else (st.orelse, st.body)
+    t_calls = [unparse(c.func) for s in on for c in ast.walk(s)
+               if isinstance(c, ast.Call)]
+    f_calls = [unparse(c.func) for s in off for c in ast.walk(s)
+               if isinstance(c, ast.Call)]
+    ok = ('MemoizedTraversal' in t_calls and 'BasicTraversal' in f_calls and
+          'MemoizedTraversal' not in f_calls)
   rs.check(ok, rule, f'{it.qualname}:memoized-flag',
            'memoized -> MemoizedTraversal, otherwise BasicTraversal',
            ctx.loc(it, it.node))
